@@ -109,6 +109,19 @@ def cases(tier, rng, schema, feats):
                     continue
                 out.append(f"C12.{tag}.{n}\tdec2\t{bytes([cmd]).hex()}{cbor.enc(mt).hex()}")
                 n += 1
+    # the limits of a list ELEMENT hold at every position of the list, also after the result vector is full
+    # (pubKeyCredParams keeps two entries; allow / exclude lists reject the whole list when over capacity)
+    from . import c14 as _c14
+    known = [_c14.entry(-7, "public-key"), _c14.entry(-8, "public-key"), _c14.entry(-7, "public-key")]
+    probes2 = [("type32", _c14.entry(-7, "t" * 32)), ("type33", _c14.entry(-7, "t" * 33)), ("type200", _c14.entry(-8, "t" * 200)),
+               ("algmax", _c14.entry(2**31 - 1, "public-key")), ("algmax1", _c14.entry(2**31, "public-key")),
+               ("algmin", _c14.entry(-(2**31), "public-key")), ("algmin1", _c14.entry(-(2**31) - 1, "public-key")),
+               ("alg2p32", _c14.entry(2**32, "public-key"))]
+    for pos in range(0, 6):
+        for tag, pr in probes2:
+            lst = (known * 2)[:pos] + [pr] + known[: max(0, 2 - pos)]
+            out.append(f"C12.elem{tag}.{n}\tdec2\t{_c14.mc(lst).hex()}")
+            n += 1
     return out
 
 
